@@ -421,6 +421,60 @@ func C10(tier rt.Tier) int {
 							pool = append(pool, es...)
 						}
 						pool = append(pool, foreign...)
+						// proofs BETWEEN changes: the same trie object, having served every proof above, is changed step by
+						// step (every key in turn gets another value, then every live key is deleted one after the other,
+						// nothing is committed in between) and must serve the proofs of its new content after every step
+						{
+							t2, m2 := buildTrie(c, Shared(false), mode)
+							for b := uint64(1); b <= m2.Total(); b++ {
+								_, _, _ = t2.GetBlockProof(b)
+							}
+							type step struct {
+								k int
+								v string
+							}
+							var steps []step
+							for k := range Keys {
+								nv := "b"
+								if e, ok := m2.M[string(Keys[k])]; ok && len(e.Value) > 0 && e.Value[0] == 'b' {
+									nv = "a"
+								}
+								steps = append(steps, step{k, nv})
+							}
+							for k := range Keys {
+								steps = append(steps, step{k, ""})
+							}
+							for si, st := range steps {
+								v := Shared(false).value(st.v, st.k)
+								if st.v == "" {
+									v = ""
+								}
+								if err := t2.Update(Keys[st.k], []byte(v), Weight(v)); err != nil {
+									violate("between-update", fmt.Sprintf("content {%s} mode %d: step %d (k%d=%q) after proofs had been served: Update returned %v", c, mode, si, st.k, st.v, err), map[string]any{"content": c.String(), "mode": mode, "step": si})
+									return
+								}
+								if v == "" {
+									delete(m2.M, string(Keys[st.k]))
+								} else {
+									m2.M[string(Keys[st.k])] = model.WEntry{Key: Keys[st.k], Value: []byte(v), Weight: Weight(v)}
+								}
+								r2 := m2.Root()
+								for b := uint64(1); b <= m2.Total(); b++ {
+									own, _ := m2.Owner(b)
+									key, p, err := t2.GetBlockProof(b)
+									atomic.AddInt64(&honest, 1)
+									if err != nil || !bytes.Equal(key, own.Key) {
+										violate("between-get", fmt.Sprintf("content {%s} mode %d: after step %d (k%d=%q, nothing committed since) GetBlockProof(%d) = key %x, %v; owner %x", c, mode, si, st.k, st.v, b, key, err, own.Key), map[string]any{"content": c.String(), "mode": mode, "step": si, "block": b})
+										return
+									}
+									h, val, err := (&wmpt.WeightedMerkleTrie{}).VerifyBlockProof(b, p)
+									if err != nil || !bytes.Equal(h, r2) || !bytes.Equal(val, own.Value) {
+										violate("between-verify", fmt.Sprintf("content {%s} mode %d: after step %d (k%d=%q, nothing committed since) the proof of block %d verifies to (%x, %q, %v), want (%x, %q): the trie served proofs before the change", c, mode, si, st.k, st.v, b, h, val, err, r2, own.Value), map[string]any{"content": c.String(), "mode": mode, "step": si, "block": b})
+										return
+									}
+								}
+							}
+						}
 						// a proof request that FAILS (storage read error at every position of every block's walk, on a
 						// freshly built trie) must not influence the next proof, of this trie or of another one
 						if mode != 0 && mode != 5 {
